@@ -377,7 +377,7 @@ def find_largest_size_bounded_curvature(DX, diam_X, d):
         # Pick a row (and column) with highest number of off-diagonal
         # distances < d, then with smallest sum of off-diagonal
         # distances ≥ d.
-        K_rows_sortkeys = -np.sum(K < d, axis=0) * (len(K) * diam_X) + \
+        K_rows_sortkeys = -np.sum(K < d, axis=0) * (len(K) * int(diam_X)) + \
                       np.sum(np.ma.masked_less(K, d), axis=0).data
         row_to_remove = np.argmin(K_rows_sortkeys)
         # Remove the row and column from K.
@@ -567,6 +567,10 @@ def check_assignment_feasibility(v_distribution, u_distribution, d):
     is_assignment_feasible: bool
         Whether such injective f: {1,...,p} → {1,...,q} exists.
     """
+    # Index arithmetic below must not be carried out in the (small) integer
+    # type of the distance matrices.
+    d = int(d)
+
     def next_i_and_j(min_i, min_j):
         # Find reversed v distribution index of smallest v entries yet
         # to be assigned. Then find index in reversed u distribution of
